@@ -22,7 +22,7 @@ def parse(core):
 # per system: which command kinds are map updates (consume a dot on key x) / key removes / nested removes
 SYS = {
     'map_mvreg':      dict(up=(0,), keyrm=(1, 2), nestedrm=()),
-    'map_orswot':     dict(up=(0, 1), keyrm=(2, 3), nestedrm=(1,)),
+    'map_orswot':     dict(up=(0, 1, 4), keyrm=(2, 3), nestedrm=(1,)),
     'map_map_orswot': dict(up=(0, 1, 2, 4), keyrm=(3, 5), nestedrm=(1, 2, 4)),
 }
 
@@ -71,6 +71,12 @@ WHAT = {
     'RC7': "under per-actor-FIFO but non-causal delivery a key remove that deletes an entry also deletes what an overtaken update still needed (pending nested removes stored inside the entry, or the fact that a register write had been superseded); the view is stale until the missing op arrives",
 }
 
+def no_merge_job(u):
+    """the configuration explores op delivery only (its label ends in '<discipline> n<=k' without '+merge'): a failure
+    there cannot be a merge defect (RC2)"""
+    import re
+    return re.search(r'(Fifo|Causal|Any) n<=\d+$', u.get('job', '')) is not None
+
 def attribute(prop, u):
     system, kind, core = u['system'], u['kind'], u['core']
     ops = parse(core)
@@ -92,7 +98,7 @@ def attribute(prop, u):
     if system in SYS:
         if kind.endswith('noncausal') and any(o['k'] in SYS[system]['keyrm'] for o in ops):
             return 'RC7'
-        if same_actor_twice(system, ops):
+        if same_actor_twice(system, ops) and not no_merge_job(u):
             return 'RC2'
         if nested_and_key_remove(system, ops) or any(o['k'] in SYS[system]['nestedrm'] for o in ops):
             if kind.endswith('noncausal'):
